@@ -199,7 +199,7 @@ Proof.
   - case_bool_decide; [by left|]. unfold lift1, L1.step. cbn [L1.handle].
     destruct (L1.bank_send_msg _ _ _ _ _) as [[s1 r]|] eqn:Hd; [|by left].
     apply l1_bank_send_effect in Hd as (_ & Hel & Hsq & _). left. case_bool_decide; cbn; by apply Hfr.
-  - left. destruct (l2_plain m2); [|done]. unfold lift2. destruct (L2.step _ _ _) as [s2 [r|]]; done.
+  - left. destruct (l2_adm c (l1 s) m2); [|done]. unfold lift2. destruct (L2.step _ _ _) as [s2 [r|]]; done.
   - left. destruct (find_event c (l1 s) k) as [ev|]; [|done]. unfold lift2. destruct (L2.step _ _ _) as [s2 [r|]]; done.
   - left. unfold lift1, L1.step. cbn [L1.handle].
     destruct (L1.propose _ _ _ _ _ _ _ _) as [[s1 r]|] eqn:Hd; [|done].
@@ -250,7 +250,7 @@ Proof.
     cbn [sys_step].
   - case_bool_decide; [done|]. unfold lift1. destruct (L1.step _ _ _ _) as [s1 [r|]]; done.
   - case_bool_decide; [done|]. unfold lift1. destruct (L1.step _ _ _ _) as [s1 [r|]]; [|done]. case_bool_decide; done.
-  - destruct (l2_plain m2); [apply HL2|done].
+  - destruct (l2_adm c (l1 s) m2); [apply HL2|done].
   - destruct (find_event c (l1 s) k) as [ev|]; [apply HL2|done].
   - unfold lift1. destruct (L1.step _ _ _ _) as [s1 [r|]]; done.
   - unfold lift1. destruct (L1.step _ _ _ _) as [s1 [r|]]; done.
@@ -479,3 +479,39 @@ Module C08DrainRun.
     = (105, 100, 0, 0, 5, [1%N])%Z.
   Proof. vm_compute. split; reflexivity. Qed.
 End C08DrainRun.
+
+(* non-vacuity of the batch step: the admin wraps the relay of event 1 (signed by the module
+   authority, which is a listed executor) and a withdrawal-free params-neutral message into
+   ExecuteMessages; the batch is a system step and credits the deposit *)
+Module C08BatchRun.
+  Import C08Run. Import Coq.Strings.String. Local Open Scope string_scope.
+  Definition tbl2' (s : bytes) : option N :=
+    if bytes_eqb s (bs "exec") then Some 1%N else if bytes_eqb s (bs "alice") then Some 2%N
+    else if bytes_eqb s (bs "auth") then Some 3%N else None.
+  Definition c' : scfg :=
+    {| c1 := c1 c;
+       c2 := {| L2.resolve := tbl2'; L2.blocked := λ _, false; L2.authority := bs "auth"; L2.modacc := 100; L2.feecol := 101 |};
+       bid := 1 |}.
+  Definition s0' : sys :=
+    {| l1 := l1 s0;
+       l2 := {| L2.bk := bank_empty; L2.next_l1 := 1; L2.next_l2 := 1; L2.pairs := ∅;
+                L2.prm := {| L2.p_admin := bs "exec"; L2.p_execs := [bs "exec"; bs "auth"]; L2.p_maxv := 1; L2.p_hist := 1;
+                             L2.p_mingas := []; L2.p_whitelist := []; L2.p_hookgas := 0 |};
+                L2.info := None; L2.vs := vempty; L2.seqs := ∅; L2.wlog := []; L2.dlog := [] |};
+       paid := []; donated := [] |}.
+  Definition dep1 : L2.fdep :=
+    {| L2.fd_sender := bs "auth"; L2.fd_from := bs "l1user"; L2.fd_to := bs "alice"; L2.fd_denom := l2d c' (bs "uinit");
+       L2.fd_amt := 100; L2.fd_seq := 1; L2.fd_height := 7; L2.fd_base := bs "uinit"; L2.fd_hook := L2.HNone |}.
+  Definition batch : L2.msg := L2.MExecute (bs "exec") [L2.MFinalizeDeposit dep1].
+  Definition unfaithful : L2.msg :=
+    L2.MExecute (bs "exec") [L2.MFinalizeDeposit {| L2.fd_sender := bs "auth"; L2.fd_from := bs "l1user"; L2.fd_to := bs "alice";
+        L2.fd_denom := l2d c' (bs "uinit"); L2.fd_amt := 101; L2.fd_seq := 1; L2.fd_height := 7; L2.fd_base := bs "uinit";
+        L2.fd_hook := L2.HNone |}].
+  Definition s1' : sys := sys_run c' s0' [SDeposit (e 1000000000) (bs "l1user") (bs "alice") (bs "uinit") 100 []].
+  Example batch_runs :
+    (sys_step c' s1' (SL2 batch)).2 = true ∧
+    gets (L2.bk (l2 (sys_step c' s1' (SL2 batch)).1)) (l2d c' (bs "uinit")) = 100%Z ∧
+    pending_dep c' (sys_step c' s1' (SL2 batch)).1 (bs "uinit") = 0%Z ∧
+    (sys_step c' s1' (SL2 unfaithful)).2 = false.
+  Proof. vm_compute. repeat split; reflexivity. Qed.
+End C08BatchRun.
